@@ -191,6 +191,10 @@ BASE_OK += [e for f in sorted(TXN_FUNCS) for e in (f"{f}((r for r in orders))", 
                                                     f"{f}((r.item for r in orders), \"a\", \"b\")")]
 
 
+# a list result whose LATER element is a generator (the first one is plain): every element is made plain data before it is handed on
+BASE_OK += ["[r.item if r.amount > 1 else (x.item for x in orders) for r in orders]", "[(x.item for x in orders) if r.amount > 1 else r.item for r in orders]"]
+
+
 def context_names():
     """Every attribute name of tally's own evaluation-context and evaluator classes (enumerated at run time), as a bare name and as a
     call: the expression language reads transaction data through a fixed list of names, not through the objects that hold it."""
